@@ -33,12 +33,14 @@ def inner(a, w):
     return a[tuple(slice(w, n - w) for n in a.shape)]
 
 
-def replay(e, backend, real_t):
+def replay(e, backend, real_t, arena="contig"):
+    """arena = "pad": every operand is a strided view into a larger guard buffer (the library passes views to its own kernels)."""
     shim.set_backend(backend)
     shape = tuple(e["shape"])
     D = len(shape)
     rt = np.float64 if backend == "exact" else real_t
-    mk = (lambda a: shim.frac_array(a)) if backend == "exact" else (lambda a: np.array(a, dtype=real_t))
+    ar = kernels.Arena(arena)
+    mk = (lambda a: shim.frac_array(a)) if backend == "exact" else (lambda a: ar.make(np.asarray(a), real_t))
     num = (lambda x: Fraction(x)) if backend == "exact" else (lambda x: real_t(x))
     G = lambda n, **kw: kernels.gen(n, rt, **kw)  # noqa: E731
     errs = []
@@ -102,6 +104,8 @@ def replay(e, backend, real_t):
         G("gen_update_vorticity_from_velocity_forcing_pyst_kernel_2d")(vorticity_field=b, velocity_forcing_field=mk(vf - W), prefactor=num(3))
         if nz(a - b):
             errs.append("penalised-velocity update != forcing update of the difference")
+    if not ar.guards_intact():
+        errs.append("a kernel wrote outside the view it was given")
     return errs
 
 
@@ -130,7 +134,8 @@ def run(chk: core.Check):
     shim.install()
     quick = chk.tier == "quick"
     shapes = [(6, 7), (5, 5, 6)] if quick else [(6, 7), (7, 6), (9, 8), (5, 5, 6), (6, 5, 5), (6, 7, 6)]
-    variants = [("exact", np.float64), ("compile", np.float64)] + ([] if quick else [("compile", np.float32)])
+    variants = [("exact", np.float64, "contig"), ("compile", np.float64, "contig"), ("compile", np.float64, "pad")] + (
+        [] if quick else [("compile", np.float32, "contig"), ("compile", np.float32, "pad")])
     for shape in shapes:
         res = tlc.run_wrapped("MC_Identities", {"Shape": list(shape)}, INVS + "CONSTRAINT EmitState\n", workers=1, timeout=1200)
         chk.add_tlc(f"MC_Identities{list(shape)}", res)
@@ -140,15 +145,17 @@ def run(chk: core.Check):
             if key in seen:
                 continue
             seen.add(key)
-            for backend, real_t in variants:
+            for backend, real_t, arena in variants:
+                if arena == "pad" and (len(seen) % 4 != 1):
+                    continue                      # strided operands: every fourth case
                 try:
-                    errs = replay(e, backend, real_t)
+                    errs = replay(e, backend, real_t, arena)
                 except Exception as ex:
                     errs = [f"exception {type(ex).__name__}: {ex}"]
                 chk.traces += 1
-                chk.count((key, shape, backend, real_t.__name__))
+                chk.count((key, shape, backend, real_t.__name__, arena))
                 for er in errs:
-                    chk.violation({"kind": "identity", "dim": len(shape)}, f"{e['cs']} shape={shape} {backend}/{real_t.__name__}: {er}", {"case": e["cs"], "error": er})
+                    chk.violation({"kind": "identity", "dim": len(shape)}, f"{e['cs']} shape={shape} {backend}/{real_t.__name__}/{arena}: {er}", {"case": e["cs"], "error": er})
             if len(chk.samples) < 3 and e["cs"]["kind"] == "imp" and min(e["cs"]["c0"]) >= 3:
                 chk.sample({"cs": e["cs"], "shape": e["shape"]})
     res = tlc.run_wrapped("MC_Identities", {"Shape": [5, 5, 6]}, "SPECIFICATION Spec\nINVARIANT DivCurlAtDepth1\n", timeout=600)
